@@ -1,3 +1,6 @@
 // TRUSTED: std::mem::replace moves `src` in and hands the previous value out
 pub assume_specification<T> [std::mem::replace] (dest: &mut T, src: T) -> (r: T)
     ensures *final(dest) == src, r == *old(dest);
+// TRUSTED: std::mem::take moves the value out and leaves `T::default()` behind
+pub assume_specification<T: Default> [std::mem::take] (dest: &mut T) -> (r: T)
+    ensures r == *old(dest), call_ensures(T::default, (), *final(dest));
